@@ -216,3 +216,72 @@ def model_canon(line):
     ev = unhx(m.group(3)).decode("latin-1")
     ev2 = "".join(x.group(1) + "\n" for x in EVENT_RE.finditer(ev))
     return "EXIT %s TREE %s EVENTS %s" % (m.group(1), m.group(2), hx(ev2)), unhx(m.group(4)), m.group(5)
+
+
+# ---------------------------------------------------------------- operation sequences
+TRACE_CALLS = "openat,open,creat,rename,renameat,renameat2,unlink,unlinkat,rmdir,mkdir,mkdirat,chmod,fchmodat,symlink,symlinkat"
+_CALL = re.compile(r"^(?:\d+\s+)?(\w+)\((.*)\)\s+= (-?\d+)")
+_STR = re.compile(r'"((?:[^"\\]|\\.)*)"')
+
+
+def _unq(x):
+    return bytes(x, "latin-1").decode("unicode_escape").encode("latin-1")
+
+
+def ops_of_trace(trace, with_calls=False):
+    """the file-system operations of a run, in order, in the vocabulary of World.sysop; only operations on relative paths
+    (the scenario directory is the working directory; the private TMPDIR and system files are absolute).
+    with_calls: also (system call name, its occurrence number among the calls of that name) for strace's inject=...:when=N"""
+    out = []
+    calls = []
+    occ = {}
+    for l in trace:
+        m = _CALL.match(l)
+        if not m:
+            continue
+        name, args = m.group(1), m.group(2)
+        occ[name] = occ.get(name, 0) + 1
+        n_before = len(out)
+        strs = [_unq(x) for x in _STR.findall(args)]
+        if not strs or any(x.startswith(b"/") for x in strs[:2] if name in ("rename", "renameat", "renameat2", "symlink", "symlinkat")):
+            if not strs or strs[0].startswith(b"/"):
+                continue
+        if strs[0].startswith(b"/") and name not in ("symlink", "symlinkat"):
+            continue
+        if name in ("openat", "open", "creat"):
+            if "O_DIRECTORY" in args:
+                continue
+            if "O_WRONLY" in args or "O_RDWR" in args or name == "creat":
+                out.append("write:" + hx(strs[0]))
+            else:
+                out.append("read:" + hx(strs[0]))
+        elif name in ("rename", "renameat", "renameat2"):
+            out.append("rename:%s:%s" % (hx(strs[0]), hx(strs[1])))
+        elif name in ("unlink",) or (name == "unlinkat" and "AT_REMOVEDIR" not in args):
+            out.append("unlink:" + hx(strs[0]))
+        elif name == "rmdir" or name == "unlinkat":
+            out.append("rmdir:" + hx(strs[0]))
+        elif name in ("mkdir", "mkdirat"):
+            out.append("mkdir:" + hx(strs[0]))
+        elif name in ("chmod", "fchmodat"):
+            mm = re.search(r", (0[0-7]*)\)?$", args) or re.search(r", (0[0-7]+)", args)
+            out.append("chmod:%s:%s" % (hx(strs[0]), (mm.group(1).lstrip("0") or "0") if mm else "?"))
+        elif name in ("symlink", "symlinkat"):
+            if strs[-1].startswith(b"/"):
+                continue
+            out.append("symlink:%s:%s" % (hx(strs[0]), hx(strs[-1])))
+        if len(out) > n_before:
+            calls.append((name, occ[name]))
+    return (out, calls) if with_calls else out
+
+
+def model_ops(line):
+    """the TRACE field of the model's answer, with the byte counts of writes dropped"""
+    m = re.search(r" TRACE (\S+)", line)
+    if not m or m.group(1) == "-":
+        return []
+    out = []
+    for t in m.group(1).split(","):
+        f = t.split(":")
+        out.append(":".join(f[:2]) if f[0] == "write" else t)
+    return out
